@@ -99,7 +99,10 @@ def inner (s : String) (pre : String) : String :=
   ((s.drop (pre.length + 1)).dropEnd 1).toString
 
 def parseObs (impl : String) : Option ImplObs :=
-  match impl.splitOn "|" with
+  -- the fields `report=…` / `sinkreport=…` (the rendered reports of the first returned error and of
+  -- the first error the sink received) are not inputs of any oracle here: they are compared with the
+  -- model's rendering by the correspondence check
+  match (impl.splitOn "|").take 4 with
   | [rs, sk, pr, fp] =>
     let sk := inner sk "sink="
     let pr := inner pr "probes="
